@@ -18,7 +18,7 @@ ASSUMPTIONS = ["spines headed by a source of function type (`- x`) or by a param
 
                "part (b): with the minimal switches the graph of the expansion is also compared with the model (Tfv/Model/GraphAbs.lean, abstractions in "
                "argument position); with the default switches it is implementation vs independent specification only"]
-TRUSTED = ["the independent data-flow construction `flow_graph` below (oracle)", "rdflib.compare.isomorphic"]
+TRUSTED = ["the independent data-flow construction `flow_graph` below (oracle)", "harness/iso.py (exact graph isomorphism; rdflib.compare.isomorphic only as a fast path for positive answers)"]
 
 
 def flow_graph(expr, lang):
@@ -141,7 +141,7 @@ FLOW_BITS = "TFFFFFFFFTFFF"
 
 def one_case(ctx, li, spec, ops, opdecls, lang, tree, ninputs):
     from rdflib import BNode
-    from rdflib.compare import isomorphic
+    from iso import isomorphic
     text = X.tree_text(tree)
     # the data flow must not depend on the annotations that are switched on: once with the minimal switches, once with a random
     # combination (mostly the defaults: dependencies, types, membership ... on)
@@ -216,7 +216,7 @@ def dump_aexpr(e):
 def composite_cases(ctx):
     """(b) expanded composite operators"""
     from rdflib import BNode
-    from rdflib.compare import isomorphic
+    from iso import isomorphic
     from transforge.graph import TransformationGraph
     rng = ctx.rng
     for li in range(3 if ctx.tier == "quick" else 12):
@@ -262,7 +262,7 @@ def composite_cases(ctx):
 def replay(ctx, payload):
     from props.C03 import fix_schema
     from rdflib import BNode
-    from rdflib.compare import isomorphic
+    from iso import isomorphic
     inp = payload["input"]
     if "family" in inp:
         fam = CP.family_from_json(inp["family"])
